@@ -5,7 +5,7 @@ from .. import spec, thir as T, chain
 from ..pat import M, subterms
 from ..spec_terms import TABLES, PI_BITS, E_BITS
 from .common import setup, report_issues, where, check_chain
-from ..scanners import check_literals
+from ..scanners import check_literals, imaginary_suffix
 
 LEVEL = "other"
 PID = "C08"
@@ -35,23 +35,7 @@ def main(tier):
     run.ob(unit == (0.0, 1.0), "lex|unit", "C08 `i` is the imaginary unit Complex(0, 1)", w, "i -> %s" % (unit,), sample={"surface": "i", "value": "Complex::new(0.0, 1.0)"})
     tok, full, _ = m.lex_surface("pi")
     run.ob(tok == ("ctor", "Token::Pi") and full, "lex|pi", "C08 `pi` is the constant, decided before the bare `i` can be seen", w, T.show(tok) if tok else "none")
-    for probe, nm in (("2)", "digit"), (".5)", "dot")):
-        r = m.lex.run(probe)
-        ok = False
-        if r.get("kind") == "scan":
-            t = r["term"]
-            # if let Some('i') = peek { next; Num(Complex::new(0.0, parse)) } else { Num(Complex::new(parse, 0.0)) }
-            hits = []
-            for s in subterms(t):
-                e = M(("if", ("iflet", ("pvar", "Option::Some", ("char", "i")), "_"), "?a", "?b"), s)
-                if e:
-                    ia = [x for x in subterms(e["?a"]) if M(("call", "Complex::new", ("lit", "0.0", "f64"), ("try", ("okopt", ("call", "str::parse::<f64>", "_")))), x) is not None]
-                    rb = [x for x in subterms(e["?b"]) if M(("call", "Complex::new", ("try", ("okopt", ("call", "str::parse::<f64>", "_"))), ("lit", "0.0", "f64")), x) is not None]
-                    consumes = any(M(("try", ("call", "Chars.next", "_")), x) is not None or M(("call", "Chars.next", "_"), x) is not None for x in subterms(e["?a"]))
-                    hits.append(bool(ia) and bool(rb) and consumes)
-            ok = bool(hits) and all(hits)
-        run.ob(ok, "lex|imaginary|%s" % nm, "C08 a literal directly followed by `i` is imaginary (0, x) and consumes the `i`; otherwise real (x, 0)", w, str(r.get("kind")),
-               sample={"literal": nm, "forms": ["<num>i -> Complex::new(0.0, x)", "<num> -> Complex::new(x, 0.0)"]})
+    imaginary_suffix(run, m, "C08")
     check_literals(run, m, "C08")
     # routing of operators and functions
     keys = sorted(TABLES["eval_complex"])
@@ -62,6 +46,9 @@ def main(tier):
         r, err = chain.constant_chain(m, s)
         ok = r is not None and M(("call", "Complex::new", ("const", "_", bits), ("lit", "0.0", "f64")), r[1]) is not None
         run.ob(ok, "constant|%s" % s, "C08 constants are the real doubles pi / e", where(m, "::parser::Parser::parse_number"), T.show(r[1])[:120] if r else err)
+    # the statement is about expressions: their value is that of the standard tree (C04's tables as a premise)
+    from .c04 import precedence_tables
+    precedence_tables(run, F, {"eval_complex": m}, PID)
     report_issues(run, {"eval_complex": m}, tables={"T_eval", "T_prim", "T_lex"})
     run.floor("obligations", run.obligations, 40)
     return run.finish("tokenizer table for i / imaginary literals / pi, chain check of every operator and function against num_complex routing", "./check C08 --tier %s" % tier,
